@@ -252,14 +252,33 @@ def r3_order(cx):
     cx.require(ok, mt[0] if mt else cq, "a level keeps exactly the nodes satisfying the query, in input order", construct="res = [n for n in nodes if q(n)]")
     fl = qi.func("_flatten", "C20.R3")
     inner = [n for n in fl.body if isinstance(n, FUNC_TYPES)]
-    ok = False
-    if inner:
-        ys = [y for y in walk_body(inner[0].body) if isinstance(y, ast.Yield)]
-        lp = [s for s in inner[0].body if isinstance(s, ast.For)]
-        ok = len(ys) == 2 and U(ys[0].value) == params(inner[0])[0] and bool(lp) and U(lp[0].iter) == "chain.from_iterable((inner(c) for c in n.children))" and ys[0].lineno < lp[0].lineno
-    cx.require(ok, inner[0] if inner else fl, "deep search flattens in document (pre-)order: a node, then its children recursively", construct="yield n; for i in chain.from_iterable(inner(c) for c in n.children): yield i")
+    nodes_p = params(fl)[0]
+    ok, ok2, what = False, False, "(no recursive helper)"
     rets = [r for r in fl.body if isinstance(r, ast.Return)]
-    cx.require(bool(rets) and U(rets[0].value) == "list(chain.from_iterable((inner(n) for n in nodes)))", rets[0] if rets else fl, "every given node is flattened, in order", construct=short(rets[0]) if rets else "?")
+    if inner:
+        f_ = inner[0]
+        ys = [y for y in walk_body(f_.body) if isinstance(y, ast.Yield)]
+        lp = [s_ for s_ in f_.body if isinstance(s_, ast.For)]
+        if ys:
+            # generator form: yield the node, then everything its children yield, in order
+            ok = len(ys) == 2 and U(ys[0].value) == params(f_)[0] and bool(lp) and U(lp[0].iter) == "chain.from_iterable((%s(c) for c in %s.children))" % (f_.name, params(f_)[0]) and ys[0].lineno < lp[0].lineno
+            ok2 = bool(rets) and U(rets[0].value) == "list(chain.from_iterable((%s(n) for n in %s)))" % (f_.name, nodes_p)
+            what = "yield n; for i in chain.from_iterable(inner(c) for c in n.children): yield i"
+        elif lp and len(lp) == 1 and len(params(f_)) == 1:
+            # accumulating form: for n in level: flat.append(n); walk(n.children)   (append before the recursive call = pre-order)
+            l0 = lp[0]
+            tv = U(l0.target)
+            aps = [x for x in find_calls(l0.body, attr="append") if [U(a) for a in x.args] == [tv]]
+            rec = [x for x in find_calls(l0.body) if isinstance(x.func, ast.Name) and x.func.id == f_.name]
+            ok = U(l0.iter) == params(f_)[0] and len(aps) == 1 and len(rec) == 1 and [U(a) for a in rec[0].args] == ["%s.children" % tv] and aps[0].lineno < rec[0].lineno \
+                and not guard_texts(aps[0], stop=l0) and not guard_texts(rec[0], stop=l0) and not has_exit(l0.body)
+            acc = U(aps[0].func.value) if aps else "?"
+            accdef = [a for a in fl.body if isinstance(a, ast.Assign) and U(a.targets[0]) == acc and U(a.value) in ("[]", "list()")]
+            top = [x for x in find_calls([s_ for s_ in fl.body if not isinstance(s_, FUNC_TYPES)]) if isinstance(x.func, ast.Name) and x.func.id == f_.name]
+            ok2 = len(accdef) == 1 and len(top) == 1 and [U(a) for a in top[0].args] == [nodes_p] and bool(rets) and U(rets[0].value) == acc and top[0].lineno < rets[0].lineno
+            what = "for n in level: flat.append(n); walk(n.children)"
+    cx.require(ok, inner[0] if inner else fl, "deep search flattens in document (pre-)order: a node, then its children recursively", construct=what)
+    cx.require(ok2, rets[0] if rets else fl, "every given node is flattened, in order", construct=short(rets[0]) if rets else "?")
     sl = qi.func("select", "C20.R3")
     lp = [s for s in sl.body if isinstance(s, ast.For)]
     ok = False
